@@ -151,7 +151,21 @@ fn attr_name(input: Span<'_>) -> IResult<Span<'_>, Cow<'_, str>> {
 }
 
 fn attr_name_final(input: Span<'_>) -> IResult<Span<'_>, Cow<'_, str>> {
-    map(complete::identifier, Cow::Borrowed)(input)
+    alt((
+        complete_string_literal,
+        map(complete::identifier, Cow::Borrowed),
+    ))(input)
+}
+
+/// A string literal in the final segment of the input (an unterminated literal is an error).
+fn complete_string_literal(input: Span<'_>) -> IResult<Span<'_>, Cow<'_, str>> {
+    match string_literal(input) {
+        Err(nom::Err::Incomplete(_)) => Err(nom::Err::Error(nom::error::Error::new(
+            input,
+            ErrorKind::Char,
+        ))),
+        ow => ow,
+    }
 }
 
 impl<'a> ParseEvents<'a> {
